@@ -142,6 +142,22 @@ func init() {
 			return true
 		})
 		expect(testSplit != "", "toolexecCmd: the `if command == \"test\"` block computing listFlags/listArgs was not found")
+		// the -debugdir ownership chain of toolexecCmd: the if / else-if statement that reads the directory
+		var debugDirChain string
+		ast.Inspect(findFunc(mp, "toolexecCmd").Body, func(n ast.Node) bool {
+			ifs, ok := n.(*ast.IfStmt)
+			if !ok || debugDirChain != "" || ifs.Init == nil {
+				return true
+			}
+			var buf bytes.Buffer
+			format.Node(&buf, mp.fset, ifs)
+			if strings.Contains(buf.String(), "os.ReadDir(flagDebugDir)") {
+				// comments are not part of the node; normalise white space
+				debugDirChain = strings.Join(strings.Fields(buf.String()), " ")
+			}
+			return true
+		})
+		expect(debugDirChain != "", "toolexecCmd: the if-chain starting with os.ReadDir(flagDebugDir) was not found")
 		var sb strings.Builder
 		sb.WriteString(header + "namespace GV.Gen\n")
 		for _, x := range []struct {
@@ -152,6 +168,7 @@ func init() {
 		}
 		fmt.Fprintf(&sb, "def rejectLoopShape : String := %s\n", leanStr(rejectLoop))
 		fmt.Fprintf(&sb, "def testSplitShape : String := %s\n", leanStr(testSplit))
+		fmt.Fprintf(&sb, "def debugDirChainShape : String := %s\n", leanStr(debugDirChain))
 		sb.WriteString("end GV.Gen\n")
 		writeIfChanged("Steps.lean", sb.String())
 	}
